@@ -117,20 +117,30 @@ def chunkings(tape, data, mode=None):
 
 
 # ---------------------------------------------------------------------------- machine catalogue
+def identity_bytes(g):
+    """Reference encoding of the List Identity item payload (version, socket address, identity)."""
+    name = b'Sim' + b'x' * g.choice([0, 1, 4, 20], 'idn')
+    e = struct.pack('<H', 1) + struct.pack('>hH4s8s', 2, 44818, bytes([10, 0, 0, 1 + g.draw(9, 'ida')]), b'\0' * 8)
+    e += struct.pack('<HHHHHI', 1, 0x0E, 0x36, 0x0B14, 0x0030, 0x12345678 + g.draw(9, 'ids')) + bytes([len(name)]) + name
+    if g.draw(3, 'idstate'):
+        e += b'\x03'
+    return e
+
+
 def catalogue(m, g):
     """-> (label, factory() -> fresh machine, element bytes E, self_delimiting, init data, path)"""
     P = m['parser']
-    k = g.draw(14, 'mach')
+    k = g.draw(15, 'mach')
     if k == 0:
         tn = g.choice(['USINT', 'SINT', 'UINT', 'INT', 'UDINT', 'DINT', 'ULINT', 'LINT', 'REAL', 'LREAL', 'BOOL'], 'tt')
         v = {'REAL': 1.5, 'LREAL': -2.25, 'BOOL': True}.get(tn, 1 + g.draw(100, 'tv'))
-        return tn, lambda: getattr(P, tn)(context='v', terminal=True), rc.enc_elems(tn, [v]), True, None, None
+        return tn, lambda **kw: getattr(P, tn)(context='v', terminal=True, **kw), rc.enc_elems(tn, [v]), True, None, None
     if k == 1:
         s = 'x' * g.choice([0, 1, 2, 5, 8, 31], 'sl')
-        return 'SSTRING', lambda: P.SSTRING(terminal=True), rc.enc_elems('SSTRING', [s]), True, None, None
+        return 'SSTRING', lambda **kw: P.SSTRING(terminal=True, **kw), rc.enc_elems('SSTRING', [s]), True, None, None
     if k == 2:
         s = 'y' * g.choice([0, 1, 2, 5, 8, 33], 'sl')
-        return 'STRING', lambda: P.STRING(terminal=True), rc.enc_elems('STRING', [s]), True, None, None
+        return 'STRING', lambda **kw: P.STRING(terminal=True, **kw), rc.enc_elems('STRING', [s]), True, None, None
     if k in (3, 4):
         segs = []
         for _ in range(g.between(0, 4, 'nseg')):
@@ -149,17 +159,17 @@ def catalogue(m, g):
                 segs.append(('port', g.choice([1, 14, 20], 'pv'), g.choice([0, 9, '1.2.3.4', '10.0.0.10'], 'lv')))
         segs = [sg for sg in segs if not (sg[0] == 'symbolic' and not sg[1])]
         if k == 3:
-            return 'EPATH', lambda: P.EPATH(terminal=True), rc.epath(segs), True, None, None
-        return 'EPATH_padded', lambda: P.EPATH_padded(terminal=True), rc.epath(segs, padded_size=True), True, None, None
+            return 'EPATH', lambda **kw: P.EPATH(terminal=True, **kw), rc.epath(segs), True, None, None
+        return 'EPATH_padded', lambda **kw: P.EPATH_padded(terminal=True, **kw), rc.epath(segs, padded_size=True), True, None, None
     if k == 5:
         n = g.draw(4, 'next')
         e = struct.pack('<BB', g.choice([0, 5, 0xFF], 'st'), n) + b''.join(struct.pack('<H', 0x2100 + i) for i in range(n))
-        return 'status', lambda: P.status(terminal=True), e, True, None, None
+        return 'status', lambda **kw: P.status(terminal=True, **kw), e, True, None, None
     if k == 6:
         tn = g.choice(['INT', 'DINT', 'REAL', 'USINT', 'LINT', 'SSTRING'], 'tdt')
         vals = ['s%d' % i for i in range(3)] if tn == 'SSTRING' else ([1.5, 2.5, -3.0] if tn == 'REAL' else [1, 2, 3])
         code = rc.TYPE_CODE[tn]
-        return 'typed_data/' + tn, lambda: P.typed_data(tag_type=code, context='td', terminal=True), rc.enc_elems(tn, vals), False, None, None
+        return 'typed_data/' + tn, lambda **kw: P.typed_data(tag_type=code, context='td', terminal=True, **kw), rc.enc_elems(tn, vals), False, None, None
     if k == 7:
         items = []
         for _ in range(g.between(0, 3, 'nit')):
@@ -170,23 +180,27 @@ def catalogue(m, g):
                 items.append((0x00A1, struct.pack('<I', 0x1234 + g.draw(9, 'cid'))))
             else:
                 items.append((0x00B2, rc.req_read_tag(rc.tag_path(name='ab'), 1)))
-        return 'CPF', lambda: P.CPF(terminal=True), rc.cpf(items), True, None, None
+        if g.chance(1, 3, 'idit'):
+            # a List Identity item (its parser ends with a greedy "extra" state: only the item's
+            # length keeps it from swallowing the items behind it)
+            items.insert(g.draw(len(items) + 1, 'idpos'), (0x000C, identity_bytes(g)))
+        return 'CPF', lambda **kw: P.CPF(terminal=True, **kw), rc.cpf(items), True, None, None
     if k == 8:
         msg = rc.req_read_tag(rc.tag_path(name='ab' + 'c' * g.draw(2, 'o')), 1)
         route = [('port', 1, 0)] if g.draw(2, 'r') else []
-        return 'unconnected_send', lambda: P.unconnected_send(terminal=True), rc.unconnected_send(msg, route), True, None, None
+        return 'unconnected_send', lambda **kw: P.unconnected_send(terminal=True, **kw), rc.unconnected_send(msg, route), True, None, None
     if k == 9:
         body = rc.send_rr(0x1234, rc.unconnected_send(rc.req_read_tag(rc.tag_path(name='tag'), 1), []), b'ctx12345')
         if g.draw(2, 'reg'):
             body = rc.register(b'ABCDEFGH')
-        return 'enip_machine', lambda: P.enip_machine(context='enip', terminal=True), body, True, None, None
+        return 'enip_machine', lambda **kw: P.enip_machine(context='enip', terminal=True, **kw), body, True, None, None
     if k == 10:
         fr = rc.send_rr(0x1234, rc.unconnected_send(rc.req_read_tag(rc.tag_path(name='tag'), 1), []), b'ctx12345')
         cmd, ln = struct.unpack_from('<HH', fr, 0)
-        return 'CIP', lambda: P.CIP(terminal=True), fr[24:], True, {'command': cmd, 'length': ln}, None
+        return 'CIP', lambda **kw: P.CIP(terminal=True, **kw), fr[24:], True, {'command': cmd, 'length': ln}, None
     if k == 11:
         n = g.choice([1, 2, 3, 7], 'on')
-        return 'octets', lambda: P.octets(context='o', repeat=n, terminal=True), bytes(range(1, n + 1)), True, None, None
+        return 'octets', lambda **kw: P.octets(context='o', repeat=n, terminal=True, **kw), bytes(range(1, n + 1)), True, None, None
     if k == 12:
         dev = m['logix'].Logix
         kind = g.draw(4, 'rk')
@@ -202,9 +216,11 @@ def catalogue(m, g):
         else:
             e = rc.req_get_attr_single([('class', 2), ('instance', 1), ('attribute', 3)])
             sd = True
-        return 'Object.parser', lambda: dev.parser, e, sd, None, None
+        return 'Object.parser', lambda **kw: dev.parser, e, sd, None, None
+    if k == 14:
+        return 'identity_object', lambda **kw: P.identity_object(terminal=True, **kw), identity_bytes(g), False, None, None
     n = g.choice([1, 2, 4], 'wn')
-    return 'words', lambda: P.words(context='w', repeat=n, terminal=True), bytes(range(1, 2 * n + 1)), True, None, None
+    return 'words', lambda **kw: P.words(context='w', repeat=n, terminal=True, **kw), bytes(range(1, 2 * n + 1)), True, None, None
 
 
 @world('c10')
@@ -220,6 +236,16 @@ def c10(tapes, params):
     def violation(cls, msg, **key):
         violations.append(dict(cls=cls, msg=str(msg)[:1500], key=key))
 
+    # configuration knob: the logging threshold (the parsing core has code that only runs, or is
+    # skipped, when INFO/DEBUG logging is enabled); records go to a null handler
+    loglevel = params.get('loglevel') or g.weighted([(6, 0), (1, 20), (1, 10), (1, 25)], 'loglevel')
+    if loglevel:
+        import logging
+        logging.disable(logging.NOTSET)
+        root = logging.getLogger()
+        root.handlers[:] = [logging.NullHandler()]
+        root.setLevel(loglevel)
+    stats['loglevel'] = loglevel
     ncases = g.between(4, params.get('max_cases', 16), 'ncases')
     for case in range(ncases):
         label, factory, E, selfdelim, init, path = catalogue(m, g)
@@ -272,7 +298,12 @@ def c10(tapes, params):
             stream = E[:cut]
             stats['eof_cases'] += 1
 
+        # the limit is given either to a wrapping dfa or to the machine's own constructor
+        direct = mode == 'limit' and label != 'Object.parser' and not isinstance(wrap_kw['limit'], str) and g.chance(1, 3, 'direct')
+
         def mk():
+            if direct:
+                return factory(**wrap_kw)
             if mode == 'both':
                 rep = automata.dfa('rep', initial=factory(), repeat=reps)
                 rep[None] = automata.state('done', terminal=True)
@@ -306,10 +337,15 @@ def c10(tapes, params):
                 if ok:
                     stats['limited_ok'] += 1
                     if obs['sent'] > L:
-                        violation('c10-limit-exceeded', '%s with limit %d (%r) completed having consumed %d symbols of %s' % (
-                            label, L, wrap_kw['limit'], obs['sent'], stream.hex()[:80]), machine=label.split('/')[0])
+                        violation('c10-limit-exceeded', '%s with %s limit %d (%r) completed having consumed %d symbols of %s' % (
+                            label, 'its own' if direct else 'a wrapping', L, wrap_kw['limit'], obs['sent'], stream.hex()[:80]), machine=label.split('/')[0])
                 else:
                     stats['limited_fail'] += 1
+            # (b') a self-delimiting element takes exactly its own bytes and nothing of what follows
+            if ok and selfdelim and (mode == 'plain' or (mode == 'limit' and L >= n)) and obs['sent'] != n:
+                violation('c10-wrong-extent', '%s (%s%s) consumed %d symbols of %s; the element is %d bytes long' % (
+                    label, mode, '' if mode == 'plain' else ' %d%s' % (L, ' direct' if direct else ''), obs['sent'], stream.hex()[:100], n),
+                    machine=label.split('/')[0])
             if mode == 'both' and ok:
                 stats['limited_ok'] += 1
                 if obs['sent'] > L:
@@ -365,7 +401,7 @@ def gen_tnet_value(g, n, allow_null=True):
     if k == 3:
         return bytes(g.draw(256, 'bb') for _ in range(g.choice([1, 2, 9, 10, 11, 99, 100, 101], 'bl')))
     if k == 4:
-        return g.choice(['', 'text', 'héllo', '日本語', 'a:b,c', '\U0001F600 x', '12:'], 'tv') + str(n)
+        return g.choice(['', 'text', 'héllo', '日本語', 'a:b,c', '\U0001F600 x', '12:', '\ufeff', '\ufeffbom first', 'x\ufeff'], 'tv') + str(n)
     if k == 5:
         return bytes([n & 0xFF]) * g.choice([1000, 10000], 'big')
     if k == 6:
@@ -404,7 +440,7 @@ def c20(tapes, params):
         if k == 4:
             return g.choice([b'', b'3:abc,', b':', b'}]', b'\x00\xff', b'12:'], 'aby')
         if k in (5, 6):
-            return g.choice(['', 'text', 'h\u00e9llo', '\u65e5\u672c', 'a:b,c'], 'at')
+            return g.choice(['', 'text', 'h\u00e9llo', '\u65e5\u672c', 'a:b,c', '\ufeffbom', '\ufeff'], 'at')
         if k in (7, 8):
             return [gen_any(depth + 1) for _ in range(g.draw(4, 'aln'))]
         return {g.choice(['k', 'key2', 'a b', '9'], 'dk') + str(i): gen_any(depth + 1) for i in range(g.draw(3, 'adn'))}
@@ -431,6 +467,34 @@ def c20(tapes, params):
         if rest != b'' or not same(back, v):
             violation('c20-reference-roundtrip', 'tnetstrings.parse(dump(%r)) == %r (rest %r): the serialised form was %r' % (v, back, rest, e[:80]),
                       vtype=type(v).__name__)
+        # the same pair under a caller-chosen text encoding (a parameter of both functions)
+        enc = g.choice([None, None, 'latin-1', 'utf-16', 'cp1252'], 'aenc')
+        if enc is not None:
+            def texts(x):
+                if isinstance(x, str):
+                    yield x
+                elif isinstance(x, list):
+                    for y in x:
+                        yield from texts(y)
+                elif isinstance(x, dict):
+                    for y in x.values():
+                        yield from texts(y)
+            try:
+                for t in texts(v):
+                    t.encode(enc)
+            except UnicodeError:
+                enc = None
+        if enc is not None:
+            try:
+                e2 = tns.dump(v, encoding=enc)
+                back2, rest2 = tns.parse(e2, encoding=enc)
+            except Exception as exc:        # noqa: BLE001
+                violation('c20-reference-roundtrip', 'tnetstrings dump/parse with encoding=%r raised %s: %s for %r' % (
+                    enc, type(exc).__name__, exc, v), vtype='encoding')
+                continue
+            if rest2 != b'' or not same(back2, v):
+                violation('c20-reference-roundtrip', 'tnetstrings.parse(dump(%r, encoding=%r), encoding=%r) == %r (rest %r)' % (
+                    v, enc, enc, back2, rest2), vtype='encoding')
 
     # ---- (a) STREAM: tnet_machine on a scheduled chunk arrival, one value after another + tail
     nvals = g.between(1, params.get('max_values', 10), 'nvals')
